@@ -167,6 +167,23 @@ func (e *env) run(c *caseIn) (*rec, error) {
 			}
 		}
 		if log {
+			// "currently have a valid unexpired metric" is about the LATEST metric received: half of the
+			// time an older metric of the opposite health precedes it (healthy-then-bad, bad-then-healthy)
+			if e.rng.Intn(2) == 0 {
+				prev := &api.Metric{Name: name, Peer: pid, Valid: true, Value: "5"}
+				if st == "bad" {
+					prev.SetTTL(2 * time.Hour)
+				} else {
+					prev.Expire = time.Now().Add(-2 * time.Hour).UnixNano()
+					if e.rng.Intn(2) == 0 {
+						prev.Valid = false
+						prev.SetTTL(2 * time.Hour)
+					}
+				}
+				if err := e.mon.LogMetric(ctx, prev); err != nil {
+					return nil, err
+				}
+			}
 			if err := e.mon.LogMetric(ctx, m); err != nil {
 				return nil, err
 			}
